@@ -8,15 +8,15 @@
 (* success / fail with arguments, unsolicited notifications) with times,   *)
 (* completions of user requests.                                           *)
 (***************************************************************************)
-EXTENDS MasterEv, Json, IOUtils
+EXTENDS MasterEv, MDevSets, Json, IOUtils
 
 Rec == ndJsonDeserialize(IOEnv.TRACE)
 VARIABLES l, s, sc, mode, res
 tvars == <<l, s, sc, mode, res>>
 
-PTx(x) == [t |-> x.t, fc |-> x.fc, seq |-> x.seq, uns |-> x.uns, dst |-> x.dst]
+PTx(x) == [t |-> x.t, fc |-> x.fc, seq |-> x.seq, uns |-> x.uns, dst |-> x.dst, pid |-> x.pid]
 PLtx(x) == [t |-> x.t, dst |-> x.dst]
-PCb(c) == [t |-> c.t, k |-> c.k, n |-> c.n, i |-> c.i, s |-> c.s]
+PCb(c) == [t |-> c.t, k |-> c.k, n |-> c.n, i |-> c.i, s |-> c.s, x |-> c.x]
 Cbs(e) == SelectSeq(e.cb, LAMBDA c : ~(c.k = "rh" /\ c.n = "item") /\ c.k # "ah")
 PDone(d) == [t |-> d.t, id |-> d.id, res |-> d.res]
 
